@@ -24,6 +24,7 @@ structure DCfg where
   attachments : List ChildRes
   finalize : Bool
   customize : Bool
+  related : List ChildRes := []
   deriving Inhabited
 
 def DCfg.finalizer (c : DCfg) : Finalizer :=
@@ -178,50 +179,21 @@ def decoratorParentUpdate (c : DCfg) (rule : ParentRes) (parent : J) (resp : Dec
       | _ => PE.fail "unexpected response"
   else pure .proceed
 
-def decoratorTail (c : DCfg) (rule : ParentRes) (parent : J) (observed : ObjMap) (resp : DecResp) : PE Unit := do
+def decoratorTail (c : DCfg) (rule : ParentRes) (parent : J) (observed : ObjMap) (resp : DecResp) (memo : Memo) : Prog (Memo × Except Err Unit) := do
   let upd ← decoratorParentUpdate c rule parent resp
   match upd with
-  | .stop => pure ()
-  | .proceed =>
+  | .error e => pure (memo, .error e)
+  | .ok .stop => pure (memo, .ok ())
+  | .ok .proceed =>
     let desiredList := (resp.attachments.filterMap id).map (stampMarker c)
     let desired : ObjMap := desiredList.foldl (fun acc o => acc.insertUniform o) []
     let parentRef := controllerRefTo (getAPIVersion parent) (getKind parent) parent
-    -- decorators take their update methods from the attachment rules
-    let errs ←
-      if !isDeleting parent || c.finalizer.shouldFinalize parent then
-        PE.lift (manageChildren Generated.knownMergeKeys Generated.objectMetaSystemFields c.attachments c.kindTable parentRef observed desired)
-      else pure []
-    if errs.isEmpty then pure () else PE.fail "can't reconcile children"
+    -- decorators take their update methods from the attachment rules and always use dynamic apply
+    if !isDeleting parent || c.finalizer.shouldFinalize parent then
+      let (errs, memo) ← manageChildren Generated.knownMergeKeys Generated.objectMetaSystemFields c.attachments none c.kindTable parentRef observed desired memo
+      if errs.isEmpty then pure (memo, .ok ()) else pure (memo, .error (.fail "can't reconcile children"))
+    else pure (memo, .ok ())
 
 def decResyncOps (resp : DecResp) : List Int := if resp.resyncAfter > 0 then [resp.resyncAfter] else []
-
-def syncDecoratorObject (c : DCfg) (cache : Cache) (rule : ParentRes) (parent : J) : Prog SyncRes := do
-  if c.ignored parent then pure ([], .ok ())
-  else
-  let t := targetOf rule.group rule.resource rule.namespaced (getNamespace parent) (getName parent)
-  let r ← c.finalizer.syncObject t parent
-  match r with
-  | .error e => pure ([], .error (.fail s!"can't sync finalizer: {e}"))
-  | .ok parent =>
-    if c.ignored parent then pure ([], .ok ())
-    else do
-      let observed := getAttachments c cache parent
-      let h ← callHookDecorator c parent observed []
-      match h with
-      | .error e => pure ([], .error e)
-      | .ok resp =>
-        let tl ← decoratorTail c rule parent observed resp
-        pure (decResyncOps resp, tl)
-
-/-- `sync(key)`; key = apiVersion:kind:namespace:name -/
-def syncDecorator (c : DCfg) (cache : Cache) (apiVersion kind ns name : String) : Prog Final :=
-  match c.resources.find? (fun r => r.apiVersion == apiVersion && r.kind == kind) with
-  | none => pure { outcome := .error, after := [] }
-  | some rule =>
-    match cache.parents.find? (fun p => getAPIVersion p == apiVersion && getKind p == kind && getNamespace p == ns && getName p == name) with
-    | none => pure { outcome := .ok, after := [] }
-    | some parent => do
-      let r ← syncDecoratorObject c cache rule parent
-      pure (finalOf r)
 
 end Mc
